@@ -419,6 +419,8 @@ class Exec:
             else:
                 iv = self.operand(st, tree[2]) if not re.match(r'^_\d+$', tree[2]) else st[tree[2]]
             self.index_log.append((self.curf.name, self.curbb, iv))
+            if self.observer is not None:
+                self.observer.on_index(self, self.curf.name, self.curbb, iv, self._ctx[0] if getattr(self, '_ctx', None) else None, st)
             ety = None
             if bty:
                 m = re.match(r'^\[(.+); .+\]$', bty) or re.match(r'^\[(.+)\]$', bty)
@@ -462,6 +464,7 @@ class Exec:
                 # element of an opaque array value (e.g. a buffer filled by an uninterpreted call): named after that value
                 mci = re.match(r'^(\d+) of \d+$', tree[2])
                 iv = self.const(int(mci.group(1)), 'usize') if mci else (st[tree[2]] if re.match(r'^_\d+$', tree[2]) else self.operand(st, tree[2]))
+                self._note_index(iv, st)
                 m_el = re.match(r'^\[(.+); .+\]$', str(base.ty)) or re.match(r'^\[(.+)\]$', str(base.ty))
                 ety = m_el.group(1) if m_el else None
                 name = f'{base.t}[{self.idx_str(iv)}]'
@@ -482,12 +485,18 @@ class Exec:
                 c = self.concrete(iv)
                 if c is not None:
                     return base.t[c]
+                self._note_index(iv, st)
                 out = base.t[-1]
                 for i in range(len(base.t) - 2, -1, -1):
                     out = self.ite(iv.t == self.const(i, iv.ty).t, base.t[i], out)
                 return out
         key, ty = self.place_key(st, tree)
         return self.read_key(st, key, ty)
+
+    def _note_index(self, iv, st):
+        self.index_log.append((self.curf.name, self.curbb, iv))
+        if self.observer is not None:
+            self.observer.on_index(self, self.curf.name, self.curbb, iv, self._ctx[0] if getattr(self, '_ctx', None) else None, st)
 
     def _opaque_projection(self, st, tree):
         """field / downcast chains rooted in a local that holds an Opaque value (e.g. the result of an uninterpreted call)
@@ -569,9 +578,9 @@ class Exec:
                     self.inputs[key] = self.sym(key, t)
                 st[l] = self.inputs[key]
             elif t.startswith('&'):
-                st[l] = Ref(nm, t)
+                st[l] = Ref(nm if nm != l else 'p' + l, t)      # an unnamed parameter: its referent must not share the local's own key
             else:
-                st[l] = Opaque(nm, t)
+                st[l] = Opaque(nm if nm != l else 'p' + l, t)
         return st
 
     def read_key(self, st, key, ty):
@@ -866,6 +875,8 @@ class Exec:
                     self.path_states.append((pc, d))
                     return
                 if self.cut_loops:
+                    if self.observer is not None and hasattr(self.observer, 'on_block'):
+                        self.observer.on_block(self, f, bb, st, pc)
                     st['@trail'] = trail + (bb,)
                 if bb in stop and steps > 0:
                     d = dict(st); d['@stop'] = bb
@@ -900,6 +911,8 @@ class Exec:
                         self.hint = None
                         v = self.operand(st, m.group(1))
                         self.branch_log.append((f.name, bb, v))
+                        if self.observer is not None:
+                            self.observer.on_branch(self, f.name, bb, v, pc, st, m.group(2))
                         taken = []
                         for arm in split_top(m.group(2)):
                             k, tgt = [x.strip() for x in arm.split(':')]
@@ -1083,6 +1096,8 @@ class Exec:
         self.calls.append((base, argv, r, self.curf.name, self.curbb))
         rec = {'id': self.fresh, 'callee': base, 'generics': callee[len(base):], 'args': [self.show(a, st) for a in argv], 'argtys': [a.ty if isinstance(a, Ref) else '' for a in argv], 'argv': argv, 'result': name, 'pc': pc, 'fn': self.curf.name, 'bb': self.curbb}
         self.call_records[self.fresh] = rec
+        if self.observer is not None:
+            self.observer.on_call(self, rec, st)
         st['@calls'] = st.get('@calls', ()) + (self.fresh,)
         # a callee may write through the &mut references it receives: give their targets a fresh value named after this call
         for i, a in enumerate(argv):
@@ -1149,9 +1164,15 @@ class Exec:
             return Val(tuple(Val((u / (1 << (8 * i))) % 256, 'u8') for i in range(w // 8)), 'array')
         if fn == 'ilog2':
             c = self.concrete(argv[0])
-            if c is None or c <= 0:
-                raise Refuse('ilog2 of a non-constant')
-            return self.const(c.bit_length() - 1, 'u32')
+            if c is not None and c > 0:
+                return self.const(c.bit_length() - 1, 'u32')
+            if c is None and bvm:
+                # position of the highest set bit (the argument is non-zero on non-panicking executions)
+                r = z3.BitVecVal(0, 32)
+                for i in range(1, w):
+                    r = z3.If(z3.Extract(i, i, a) == 1, z3.BitVecVal(i, 32), r)
+                return Val(r, 'u32')
+            raise Refuse('ilog2 of a non-constant')
         if fn == 'signum' and sg:
             return Val(z3.If(a > 0, self.const(1, ty).t, z3.If(a < 0, self.const(-1, ty).t, self.const(0, ty).t)), ty)
         if fn in ('is_negative', 'is_positive') and sg:
@@ -1180,6 +1201,7 @@ class Exec:
         raise Refuse(f'intrinsic {ty}::{fn}')
 
     checked = True
+    observer = None            # optional object with on_branch / on_index / on_call (lib/ctflow.py)
     cut_loops = False
     lazy_arrays = False
 
